@@ -8,6 +8,8 @@ import PrimaiteModel.Props.C18
 import PrimaiteModel.Gen.LinkBody
 
 set_option linter.unusedSimpArgs false
+set_option linter.unnecessarySimpa false
+set_option linter.unusedVariables false
 
 namespace Primaite.Link
 open Body
@@ -29,60 +31,108 @@ def airSpec (enS : Bool) (load : Option Nat) (s cap : Nat) (orc : Nat → Nat) :
   else if !admits (load.getD 0) s cap then (false, load.getD 0)
   else (true, orc (load.getD 0 + s))
 
-/-- `Link.can_transmit_frame` = `is_up ∧ load + size ≤ bandwidth`, state untouched. -/
-theorem C18_gen_link_can_transmit_body (env : Env) (l : Nat) (vars : List (Nat × Nat)) (stamped : Bool) :
-    callBool env noSub Gen.LinkBody.linkCanTransmit ⟨some l, vars, stamped⟩ =
-      some (env.up && admits l (sizeAt env stamped) env.cap, ⟨some l, vars, stamped⟩) := by
-  cases hu : env.up <;> cases stamped <;>
-    simp [callBool, Gen.LinkBody.linkCanTransmit, exec, evalB, evalN, hu, admits, sizeAt]
+/-- `Link.can_transmit_frame` = `is_up ∧ load + size ≤ bandwidth` with the size the frame HAS at that moment, state untouched —
+whatever a caller hands over as the optional parameter (`a`; quantified over as soon as some call site passes one,
+`Gen.LinkBody.canArgPassed`): the value tested is the value `transmit_frame` will store. -/
+theorem C18_gen_link_can_transmit_body (env : Env) (l : Nat) (vars : List (Nat × Nat)) (stamped : Bool) (a a0 : Option Nat)
+    (h : Gen.LinkBody.canArgPassed = false → a = none) :
+    callBool env noSub Gen.LinkBody.linkCanTransmit a { load := some l, vars := vars, stamped := stamped, arg := a0 } =
+      some (env.up && admits l (sizeAt env stamped) env.cap, { load := some l, vars := vars, stamped := stamped, arg := a0 }) := by
+  cases a with
+  | none =>
+    cases hu : env.up <;> cases stamped <;>
+      simp [callBool, Gen.LinkBody.linkCanTransmit, exec, evalB, evalN, hu, admits, sizeAt]
+  | some x =>
+    first
+    | (exfalso; simpa [Gen.LinkBody.canArgPassed] using h)
+    | (cases hu : env.up <;> cases stamped <;>
+        simp [callBool, Gen.LinkBody.linkCanTransmit, exec, evalB, evalN, hu, admits, sizeAt])
 
 /-- `Link.transmit_frame`: the size is read once, reserved BEFORE the delivery, and released iff the far interface refuses. -/
-theorem C18_gen_link_transmit_body (env : Env) (l : Nat) (vars : List (Nat × Nat)) (stamped : Bool) (orc : Nat → Bool × Nat) :
-    callUnit env { noSub with deliver := farWired orc } Gen.LinkBody.linkTransmit ⟨some l, vars, stamped⟩ =
-      some ⟨some (if (orc (l + sizeAt env stamped)).1 then (orc (l + sizeAt env stamped)).2
-                  else (orc (l + sizeAt env stamped)).2 - sizeAt env stamped), vars, stamped⟩ := by
+theorem C18_gen_link_transmit_body (env : Env) (l : Nat) (vars : List (Nat × Nat)) (stamped : Bool) (a0 : Option Nat)
+    (orc : Nat → Bool × Nat) :
+    callUnit env { noSub with deliver := farWired orc } Gen.LinkBody.linkTransmit
+        { load := some l, vars := vars, stamped := stamped, arg := a0 } =
+      some { load := some (if (orc (l + sizeAt env stamped)).1 then (orc (l + sizeAt env stamped)).2
+                  else (orc (l + sizeAt env stamped)).2 - sizeAt env stamped), vars := vars, stamped := stamped, arg := a0 } := by
   cases ho : (orc (l + sizeAt env stamped)).1 <;> cases stamped <;>
     simp_all [callUnit, Gen.LinkBody.linkTransmit, exec, evalB, evalN, farWired, lookup, sizeAt, noSub]
 
 /-- **`WiredNetworkInterface.send_frame` on top of the two `Link` bodies is the model's `send`**, whatever the frame weighed before
 it was stamped: the size admitted is the size loaded (the stamped one). -/
-theorem C18_gen_wired_send_body (env : Env) (l : Nat) (stamped : Bool) (orc : Nat → Bool × Nat) :
+theorem C18_gen_wired_send_body (env : Env) (l : Nat) (stamped : Bool) (a0 : Option Nat) (orc : Nat → Bool × Nat)
+    (h : Gen.LinkBody.sendArgPassed = false → a0 = none) :
     (sendVia env Gen.LinkBody.wiredSend Gen.LinkBody.linkCanTransmit Gen.LinkBody.linkTransmit (farWired orc) (fun _ => none)
-        ⟨some l, [], stamped⟩).map (fun r => (r.1, r.2.load)) =
+        { load := some l, vars := [], stamped := stamped, arg := a0 }).map (fun r => (r.1, r.2.load)) =
       some (some (sendSpec env.enabled env.up l env.sizeS env.cap orc).1,
             some (sendSpec env.enabled env.up l env.sizeS env.cap orc).2) := by
-  cases he : env.enabled <;> cases hu : env.up <;> cases ho : (orc (l + env.sizeS)).1 <;>
-    by_cases ha : l + env.sizeS ≤ env.cap <;>
-    simp [sendVia, Gen.LinkBody.wiredSend, Gen.LinkBody.linkCanTransmit, Gen.LinkBody.linkTransmit, exec, evalB, evalN,
-      callBool, callUnit, farWired, lookup, sendSpec, admits, noSub, he, hu, ho, ha]
+  cases a0 with
+  | none =>
+    cases he : env.enabled <;> cases hu : env.up <;> cases ho : (orc (l + env.sizeS)).1 <;>
+      by_cases ha : l + env.sizeS ≤ env.cap <;>
+      simp [sendVia, Gen.LinkBody.wiredSend, Gen.LinkBody.linkCanTransmit, Gen.LinkBody.linkTransmit, exec, evalB, evalN, evalArg,
+        callBool, callUnit, farWired, lookup, sendSpec, admits, noSub, he, hu, ho, ha]
+  | some x =>
+    first
+    | (exfalso; simpa [Gen.LinkBody.sendArgPassed] using h)
+    | (cases he : env.enabled <;> cases hu : env.up <;> cases ho : (orc (l + env.sizeS)).1 <;>
+        by_cases ha : l + env.sizeS ≤ env.cap <;>
+        simp [sendVia, Gen.LinkBody.wiredSend, Gen.LinkBody.linkCanTransmit, Gen.LinkBody.linkTransmit, exec, evalB, evalN, evalArg,
+          callBool, callUnit, farWired, lookup, sendSpec, admits, noSub, he, hu, ho, ha])
 
-/-- **`SwitchPort.send_frame`** (no stamp: a switch forwards the frame as it is) is the model's `send` with the size the frame has. -/
-theorem C18_gen_switch_send_body (env : Env) (l : Nat) (stamped : Bool) (orc : Nat → Bool × Nat) :
+/-- **`SwitchPort.send_frame`** (no stamp: a switch forwards the frame as it is) is the model's `send` with the size the frame has
+NOW — whatever size the switch hands the port (`a0`: a flood offers one frame object to port after port, and the frame grows when
+a receiving NIC stamps it, so a size measured before the flood is not the size of the frame at a later port). -/
+theorem C18_gen_switch_send_body (env : Env) (l : Nat) (stamped : Bool) (a0 : Option Nat) (orc : Nat → Bool × Nat)
+    (h : Gen.LinkBody.sendArgPassed = false → a0 = none) :
     (sendVia env Gen.LinkBody.switchSend Gen.LinkBody.linkCanTransmit Gen.LinkBody.linkTransmit (farWired orc) (fun _ => none)
-        ⟨some l, [], stamped⟩).map (fun r => (r.1, r.2.load)) =
+        { load := some l, vars := [], stamped := stamped, arg := a0 }).map (fun r => (r.1, r.2.load)) =
       some (some (sendSpec env.enabled env.up l (sizeAt env stamped) env.cap orc).1,
             some (sendSpec env.enabled env.up l (sizeAt env stamped) env.cap orc).2) := by
-  cases he : env.enabled <;> cases hu : env.up <;> cases stamped <;> cases ho : (orc (l + env.sizeS)).1 <;>
-    cases ho' : (orc (l + env.sizeU)).1 <;>
-    by_cases ha : l + env.sizeS ≤ env.cap <;> by_cases ha' : l + env.sizeU ≤ env.cap <;>
-    simp [sendVia, Gen.LinkBody.switchSend, Gen.LinkBody.linkCanTransmit, Gen.LinkBody.linkTransmit, exec, evalB, evalN,
-      callBool, callUnit, farWired, lookup, sendSpec, admits, noSub, sizeAt, he, hu, ho, ho', ha, ha']
+  cases a0 with
+  | none =>
+    cases he : env.enabled <;> cases hu : env.up <;> cases stamped <;> cases ho : (orc (l + env.sizeS)).1 <;>
+      cases ho' : (orc (l + env.sizeU)).1 <;>
+      by_cases ha : l + env.sizeS ≤ env.cap <;> by_cases ha' : l + env.sizeU ≤ env.cap <;>
+      simp [sendVia, Gen.LinkBody.switchSend, Gen.LinkBody.linkCanTransmit, Gen.LinkBody.linkTransmit, exec, evalB, evalN, evalArg,
+        callBool, callUnit, farWired, lookup, sendSpec, admits, noSub, sizeAt, he, hu, ho, ho', ha, ha']
+  | some x =>
+    first
+    | (exfalso; simpa [Gen.LinkBody.sendArgPassed] using h)
+    | (cases he : env.enabled <;> cases hu : env.up <;> cases stamped <;> cases ho : (orc (l + env.sizeS)).1 <;>
+        cases ho' : (orc (l + env.sizeU)).1 <;>
+        by_cases ha : l + env.sizeS ≤ env.cap <;> by_cases ha' : l + env.sizeU ≤ env.cap <;>
+        simp [sendVia, Gen.LinkBody.switchSend, Gen.LinkBody.linkCanTransmit, Gen.LinkBody.linkTransmit, exec, evalB, evalN, evalArg,
+          callBool, callUnit, farWired, lookup, sendSpec, admits, noSub, sizeAt, he, hu, ho, ho', ha, ha'])
 
 /-- **`WirelessNetworkInterface.send_frame` on top of the two `AirSpace` bodies is the model's `wsend`** — from a present key and
 from an absent one (no KeyError on any path: `transmit`'s `+=` only runs after `can_transmit_frame` created the key). -/
-theorem C18_gen_wireless_send_body (env : Env) (load : Option Nat) (stamped : Bool) (orc : Nat → Nat) :
+theorem C18_gen_wireless_send_body (env : Env) (load : Option Nat) (stamped : Bool) (a0 : Option Nat) (orc : Nat → Nat)
+    (h : Gen.LinkBody.sendArgPassed = false → a0 = none) :
     (sendVia env Gen.LinkBody.wirelessSend Gen.LinkBody.airCanTransmit Gen.LinkBody.airTransmit (fun _ => none) (farAir orc)
-        ⟨load, [], stamped⟩).map (fun r => (r.1, r.2.load.getD 0)) =
+        { load := load, vars := [], stamped := stamped, arg := a0 }).map (fun r => (r.1, r.2.load.getD 0)) =
       some (some (airSpec env.enabled load env.sizeS env.cap orc).1, (airSpec env.enabled load env.sizeS env.cap orc).2) := by
   cases he : env.enabled <;> cases load with
   | none =>
     by_cases ha : env.sizeS ≤ env.cap <;>
-      simp [sendVia, Gen.LinkBody.wirelessSend, Gen.LinkBody.airCanTransmit, Gen.LinkBody.airTransmit, exec, evalB, evalN,
+      simp [sendVia, Gen.LinkBody.wirelessSend, Gen.LinkBody.airCanTransmit, Gen.LinkBody.airTransmit, exec, evalB, evalN, evalArg,
         callBool, callUnit, farAir, lookup, airSpec, admits, noSub, he, ha]
   | some l =>
     by_cases ha : l + env.sizeS ≤ env.cap <;>
-      simp [sendVia, Gen.LinkBody.wirelessSend, Gen.LinkBody.airCanTransmit, Gen.LinkBody.airTransmit, exec, evalB, evalN,
+      simp [sendVia, Gen.LinkBody.wirelessSend, Gen.LinkBody.airCanTransmit, Gen.LinkBody.airTransmit, exec, evalB, evalN, evalArg,
         callBool, callUnit, farAir, lookup, airSpec, admits, noSub, he, ha]
+
+/-- The class the optional-size parameter opens, as a closed example of the LANGUAGE (not of the generated terms): an admission test
+that uses a size handed by the caller, under a `send_frame` that passes its own parameter on, admits a frame of 786 bytes on a link
+of 770 when the switch measured 762 before the flood — the load ends at 786 > 770. -/
+example :
+    (sendVia ⟨770, 762, 786, true, true⟩
+      (.ite (.not .enabled) (.ret .ff) (.ifCanWith .arg (.transmit (.ret .tt)) (.ret .ff)))
+      (.ite (.not .isUp) (.ret .ff) (.ite .argNone (.setArg .size (.ret (.le (.add .load .arg) .cap))) (.ret (.le (.add .load .arg) .cap))))
+      (.letN 0 .size (.setLoad (.add .load (.var 0)) (.deliver (.ret .tt) (.setLoad (.sub .load (.var 0)) (.ret .ff)))))
+      (farWired fun l => (true, l)) (fun _ => none)
+      { load := some 0, vars := [], stamped := true, arg := some 762 }).map (fun r => (r.1, r.2.load)) = some (some true, some 786) := by
+  decide
 
 /-- every body was read -/
 theorem C18_gen_body_problems : Gen.LinkBody.bodyProblems = [] := by decide
@@ -106,7 +156,7 @@ theorem C18_send_spec_is_model (n : Net) (k : Nat) (fromA : Bool) (s : Nat) (acc
 /-- a frame of 6 that weighed 4 before the stamp, on a link of 10 loaded with 5: refused by the real body (5 + 6 > 10) -/
 example :
     (sendVia ⟨10, 4, 6, true, true⟩ Gen.LinkBody.wiredSend Gen.LinkBody.linkCanTransmit Gen.LinkBody.linkTransmit
-      (farWired fun l => (true, l)) (fun _ => none) ⟨some 5, [], false⟩).map (fun r => (r.1, r.2.load)) = some (some false, some 5) := by
+      (farWired fun l => (true, l)) (fun _ => none) { load := some 5, vars := [], stamped := false }).map (fun r => (r.1, r.2.load)) = some (some false, some 5) := by
   decide
 
 end Primaite.Link
